@@ -24,6 +24,9 @@ func (e *rpcEnv) wantMessage() (string, bool) {
 			if st.Code == 0 {
 				return "", false
 			}
+			if re, ok := rawErrors[st.Code]; ok {
+				return re.Error(), true
+			}
 			return statusText(st.Msg), true
 		}
 	}
@@ -48,6 +51,9 @@ func (e *rpcEnv) runWs(ev *RpcEv) {
 	defer srv.Close()
 	_, path := methodOf(c.Shape)
 	path = "/w" + strings.TrimPrefix(path, "/t")
+	if c.WsNoBody {
+		path = "/wn" + strings.TrimPrefix(path, "/w")
+	}
 	conn, err := net.DialTimeout("tcp", srv.Listener.Addr().String(), 5*time.Second)
 	if err != nil {
 		ev.Crash = "infra: dial: " + err.Error()
@@ -67,6 +73,9 @@ func (e *rpcEnv) runWs(ev *RpcEv) {
 	}
 	if co.HTTP == 101 {
 		for _, m := range e.sent {
+			if c.WsNoBody {
+				break // nothing travels in frames
+			}
 			p := marshalMsg("json", m)
 			var wire []byte
 			if c.WsFrag > 0 && len(p) > c.WsFrag { // one message as a run of continuation frames
